@@ -49,7 +49,12 @@ def run(sid, pids):
         print("/repo is not clean"); return 2
     rc, out = sh(["git", "-C", "/repo", "apply", os.path.join(d, "patch.diff")])
     if rc != 0:
-        print("patch does not apply:", out); return 2
+        # /repo has moved on since the sub-agent's worktree was taken: try a three-way merge
+        rc, out = sh(["git", "-C", "/repo", "apply", "--3way", os.path.join(d, "patch.diff")])
+        sh(["git", "-C", "/repo", "reset", "-q"])
+        if rc != 0:
+            sh(["git", "-C", "/repo", "checkout", "--", "."])
+            print("patch does not apply:", out); return 2
     try:
         for pid in pids:
             t0 = time.time()
